@@ -180,6 +180,30 @@ func runC14(w *World, r *Report) {
 	c14DelayedUnmanage(w, r)
 	c14NormalisationAgreement(w, r)
 	c14ProxyProtocolAgreement(w, r)
+	// flows are grouped for registration by their comparable filter: it must tell apart
+	// everything the registration depends on (URL and method list among them)
+	if tc := w.Fn(pkgSCfg, "Filter.ToComparable"); tc == nil {
+		r.Undec("R4", "Filter.ToComparable", token.NoPos, "function not found")
+	} else {
+		var lit *ssa.Alloc
+		Instrs(tc, func(in ssa.Instruction) {
+			if a, ok := in.(*ssa.Alloc); ok && structOf(a.Type()) == "ComparableFilter" {
+				lit = a
+			}
+		})
+		okKey := lit != nil
+		if okKey {
+			mm, _ := sameNameCopyMismatches(lit)
+			okKey = len(mm) == 0
+			for _, f := range []string{"URL", "Method"} {
+				v := litField(lit, f)
+				if v == nil || !Derives(v, func(x ssa.Value) bool { return strings.HasSuffix(Path(x), "f."+f) }) {
+					okKey = false
+				}
+			}
+		}
+		r.Check(okKey, "R4", "Filter.ToComparable/key-has-url-and-methods", tc.Pos(), "the grouping key of supported filters carries the filter's URL and its method list (two flows on one URL with different methods are registered separately)")
+	}
 	r.Min("R5", 3)
 	r.Min("R1", 2)
 	r.Min("R2", 3)
@@ -790,6 +814,20 @@ func c14DelayedUnmanage(w *World, r *Report) {
 			n++
 			b, isB := peel(mu.Value).(*ssa.BinOp)
 			if !isB || b.Op != token.ADD || Path(b.Y) != "1" {
+				okInc = false
+			}
+			// every registration counts: the increment depends only on the manage-all branch and the loop
+			for _, cd := range expandConds(CondsOf(mu.Block())) {
+				p := Path(cd.V)
+				if strings.HasSuffix(p, ".ManageAll") {
+					continue
+				}
+				if rel, isRel := NormCond(cd); isRel && rel.Op == "<" && strings.Contains(Path(rel.R), "builtin.len(") {
+					continue
+				}
+				if strings.HasPrefix(p, "next(range(") {
+					continue
+				}
 				okInc = false
 			}
 		})
